@@ -142,6 +142,25 @@ def _routine_case(item):
                         add("graph_embed", "Raises", False, "%s: %s" % (type(e).__name__, str(e)[:100]))
             # meshes, directly: the routines return parameters; multiply back through the harness' own beamsplitters by
             # executing the command builders is done in C02; here only "valid in => no exception, invalid in => ValueError"
+            import strawberryfields as sf
+            from strawberryfields import ops as sfops
+            alpha = np.array([(0.3 + 0.1 * i) * np.exp(0.7j * i) for i in range(n)])
+            for mesh in MESHES:
+                if mesh == "sun_compact" and n < 3:
+                    continue
+                # multiply the factors back by letting coherent amplitudes run through the emitted beamsplitters / phases
+                try:
+                    prog = sf.Program(n)
+                    with prog.context as q:
+                        for i in range(n):
+                            sfops.Dgate(abs(alpha[i]), float(np.angle(alpha[i]))) | q[i]
+                        sfops.Interferometer(U, mesh=mesh) | tuple(q[i] for i in range(n))
+                    st = sf.Engine("gaussian").run(prog).state
+                    got = (st.means()[:n] + 1j * st.means()[n:]) / 2
+                    add(mesh, "Reconstructs", np.allclose(got, U @ alpha, atol=1e-8) and np.allclose(st.cov(), np.eye(2 * n), atol=1e-8),
+                        "max amplitude error %.3g" % np.max(np.abs(got - U @ alpha)))
+                except Exception as e:  # noqa
+                    add(mesh, "Raises", False, "%s: %s" % (type(e).__name__, str(e)[:100]))
             for mesh in ("rectangular", "rectangular_phase_end", "rectangular_MZ", "rectangular_symmetric", "triangular", "triangular_compact",
                          "rectangular_compact", "sun_compact"):
                 if mesh == "sun_compact" and n < 3:
@@ -226,8 +245,8 @@ def c02(chk):
                 "displaced-squeezed, plain and daggered, all ordered targets) are covered by the lattice replay of C01 on simulators that "
                 "decompose them and on those that apply them natively, and here through every compile target. Non-trivial = non-identity input.")
     chk.assumptions = ["states compared at 1e-8 on the Gaussian simulator", "graph embeddings are checked in C17 (proportional adjacency, mean photon number)"]
-    plans = [("unitary", 2, 2), ("unitary", 3, 1), ("symplectic", 2, 2), ("cov", 2, 2)] if tier == "quick" else \
-            [("unitary", 2, 3), ("unitary", 3, 2), ("unitary", 4, 1), ("symplectic", 2, 3), ("symplectic", 3, 2), ("cov", 2, 3), ("cov", 3, 2)]
+    plans = [("unitary", 2, 2), ("unitary", 3, 1), ("perm", 4, 3), ("symplectic", 2, 2), ("cov", 2, 2)] if tier == "quick" else \
+            [("unitary", 2, 3), ("unitary", 3, 2), ("unitary", 4, 1), ("perm", 4, 4), ("perm", 5, 4), ("symplectic", 2, 3), ("symplectic", 3, 2), ("cov", 2, 3), ("cov", 3, 2)]
     items = gen(chk, plans)
     res = common.pmap(_ops_case, items)
     for it, o in zip(items, res):
@@ -349,8 +368,8 @@ def c17(chk):
                 "(routine, input).")
     chk.assumptions = ["verdict is float linear algebra in the harness at 1e-8 (level: exploration); TLC contributes the exhaustive "
                        "structured input family with exact meaning"]
-    plans = [("unitary", 2, 2), ("unitary", 3, 1), ("symplectic", 2, 2), ("symplectic", 3, 1), ("cov", 2, 2)] if tier == "quick" else \
-            [("unitary", 2, 3), ("unitary", 3, 2), ("unitary", 4, 1), ("symplectic", 2, 3), ("symplectic", 3, 2), ("cov", 2, 3), ("cov", 3, 2)]
+    plans = [("unitary", 2, 2), ("unitary", 3, 1), ("perm", 4, 3), ("symplectic", 2, 2), ("symplectic", 3, 1), ("cov", 2, 2)] if tier == "quick" else \
+            [("unitary", 2, 3), ("unitary", 3, 2), ("unitary", 4, 1), ("perm", 4, 4), ("perm", 5, 4), ("symplectic", 2, 3), ("symplectic", 3, 2), ("cov", 2, 3), ("cov", 3, 2)]
     items = gen(chk, plans)
     res = common.pmap(_routine_case, items)
     for it, o in zip(items, res):
